@@ -20,7 +20,8 @@ def regen_code(ctx):
     out = os.path.join(checklib.LEAN, "Hive", "Gen", "C10_Code.lean")
     tmp = os.path.join(ctx.scratch, "C10_Code.lean")
     rc, log = checklib.sh(["go", "run", "./c10/xlate", tmp, "Hive.Gen.C10Code", os.path.join(ctx.repo, "ds/list_impl.go"),
-                           os.path.join(goroot(), "src/container/list/list.go")], cwd=checklib.HARNESS, timeout=600)
+                           os.path.join(goroot(), "src/container/list/list.go"), os.path.join(ctx.repo, "ds/list.go")],
+                          cwd=checklib.HARNESS, timeout=600)
     if rc != 0 or not os.path.exists(tmp):
         return [{"kind": "code-translator", "detail": checklib.tail(log, 20)}]
     checklib.write_gen(ctx, out, open(tmp).read())
@@ -50,7 +51,7 @@ SPEC = {
     "harness": "c10",
     "theorems": ["C10_wf_preserved", "C10_refines", "C10_refines_run", "C10_foreign_noop", "C10_neighbours",
                  "C10_code_translated", "C10_code_same_as_container_list", "C10_code_is_model", "C10_code_is_container_list",
-                 "C10_code_observers", "C10_code_refines_run", "C10_container_list_meets_spec", "C10_code_wrappers",
+                 "C10_code_observers", "C10_code_walks", "C10_traversals", "C10_code_refines_run", "C10_container_list_meets_spec", "C10_code_wrappers",
                  "C10_skeleton_writers", "C10_skeleton_readers", "C10_skeleton_pushlists", "C10_skeleton_type_shapes"],
     "trusted_base": [
         "hand-written pointer-level model Hive/Model/DList.lean of ds/list_impl.go, tied by differential execution (harness/c10)",
